@@ -1,13 +1,13 @@
 CONSTANTS
   PalUse = {1, 31}
   MaxNodes = 3
-  MaxDocs = 1
+  MaxDocs = 2
   ScalarStyles = {"plain", "double", "lit"}
   CollStyles = {"block", "flow"}
   MaxDecor = 2
-  Indents = {2}
-  Breaks = {"LF"}
-  DocFlags = {}
+  Indents = {1, 2, 4}
+  Breaks = {"LF", "CRLF", "CR"}
+  DocFlags = {"ds", "de", "zi", "cmp", "fsp"}
 SPECIFICATION Spec
 INVARIANT Emit
 CHECK_DEADLOCK FALSE
